@@ -428,18 +428,41 @@ def make_factory(t):
             return arr.tolist()
         return arr.copy()
 
+    def bump(a):
+        """The value a factory returns shows whether it received the keywords it declares."""
+        a = np.asarray(a)
+        return a if a.dtype == bool or mode != "ok" else a + np.asarray(1, dtype=a.dtype)
+
     sig = t["factory"].get("sig", "plain")
-    if sig == "varkw":
+    if sig in ("varkw", "wraps-varkw"):
         def factory(shape, **kw):
-            return produce(shape)
-    elif sig == "name":
+            r = produce(shape)
+            return r if {"name", "arg_index", "signature"} <= set(kw) else bump(r)
+    elif sig in ("name", "wraps-name"):
         def factory(shape, name=None):
-            return produce(shape)
+            r = produce(shape)
+            return r if name is not None else bump(r)
     else:
         def factory(shape):
             return produce(shape)
 
+    if sig.startswith("wraps-"):
+        return _passthrough(factory)  # every decorated factory shares the wrapper's code object; inspect.signature follows __wrapped__
     return factory
+
+
+def _passthrough(fn):
+    import functools
+
+    @functools.wraps(fn)
+    def wrapper(*args, **kwargs):
+        return fn(*args, **kwargs)
+
+    return wrapper
+
+
+def _unused():
+    return None
 
 
 def execute(einx, d, state=None):
